@@ -301,8 +301,10 @@ fn class_of(file: &str, f: &ElfFacts, is_exe: bool) -> String {
     else if f.has_dwarf { "lib_dwarf".into() } else { "lib_no_dwarf".into() }
 }
 
-pub fn gen_sym_requests(rng: &mut Rng, out: &mut Out) -> Vec<String> {
+pub fn gen_sym_requests(rng: &mut Rng, n: u64, out: &mut Out) -> Vec<String> {
     let mut req = vec![];
+    // queries per phase: 10 in the quick tier, 80 in the thorough tier
+    let q = if n > 100_000 { 80 } else { 10 };
     for sp in SYM_PROGS {
         let exe = progs_dir().join(sp.name);
         if !exe.exists() { out.count("sym.prog_missing", 1); continue; }
@@ -322,16 +324,16 @@ pub fn gen_sym_requests(rng: &mut Rng, out: &mut Out) -> Vec<String> {
         };
         for (i, p) in startup_objects(&exe).iter().enumerate() { add(p, i == 0, &mut req, &mut pools); }
         req.push("C17 symobjs".into());
-        gen_queries(rng, out, &pools, 10, &mut req);
+        gen_queries(rng, out, &pools, q, &mut req);
         req.push(format!("C17 symrun {}", enc_str(sp.main)));
         req.push("C17 symobjs".into());
-        gen_queries(rng, out, &pools, 10, &mut req);
+        gen_queries(rng, out, &pools, q, &mut req);
         for l in sp.late { add(&progs_dir().join(l), false, &mut req, &mut pools); }
         req.push(format!("C17 symrun {}", enc_str(sp.marker)));
         req.push("C17 symobjs".into());
         // after a dlopen the new objects are what matters
         if !sp.late.is_empty() { let n = pools.len(); let late: Vec<_> = pools[n - sp.late.len().min(n)..].to_vec(); pools.extend(late.clone()); pools.extend(late); }
-        gen_queries(rng, out, &pools, 10, &mut req);
+        gen_queries(rng, out, &pools, q, &mut req);
         out.count(&format!("sym.{}", sp.name), 1);
     }
     req
